@@ -22,6 +22,15 @@ ASSUME LET all == All IN
             <<[hdr |-> TRUE, strength |-> Strength, n |-> Cardinality(all), base |-> [rec \in Recs |-> MinBase(rec)]]>>
             \o SetToSeq(all))
 
+\* sequence cases: all ordered pairs over PairPool, plus NSEQ seeded sequences of every length 3..8
+NSeq == IF "NSEQ" \in DOMAIN IOEnv THEN atoi(IOEnv.NSEQ) ELSE 0
+SeqCases ==
+    UNION {UNION {
+        {SeqCase(rec, fmt, <<a, b>>) : a \in PairPool(rec, fmt), b \in PairPool(rec, fmt)}
+        \cup UNION {{SeqCase(rec, fmt, s) : s \in RandomSubset(NSeq, [1..k -> SeqPool(rec, fmt)])} : k \in 3..8}
+        : fmt \in SeqFormats(rec)} : rec \in Recs}
+ASSUME "SEQ_FILE" \in DOMAIN IOEnv => ndJsonSerialize(IOEnv.SEQ_FILE, SetToSeq(SeqCases))
+
 VARIABLE x
 Init == x = 0
 Next == UNCHANGED x
